@@ -107,6 +107,13 @@ func cacheFlowSpec() engine.FlowSpec {
 					return 0, true
 				}
 			}
+			// a helper method of the same cache that carries part of a lookup (the ancestor walk of
+			// StateCache.Get): its own returns are judged where it is defined
+			if h := cc.StaticCallee(); h != nil && !cc.IsInvoke() && h.Pkg != nil && strings.HasSuffix(h.Pkg.Pkg.Path(), pkgSC) && h.Object() != nil && !h.Object().Exported() {
+				if _, isCache := cacheTypes[recvNamed(h)]; isCache && h.Signature.Results().Len() == 2 && isNamed(h.Signature.Results().At(0).Type(), pkgSC, "Value") {
+					return 0, true
+				}
+			}
 			// a package-local constructor of an entry (newLiveNode(e)): what it returns is what its
 			// body makes of its parameters - clean when every returned value is (a Clone() result),
 			// otherwise as owned as the arguments
@@ -158,6 +165,7 @@ func runC07(r *engine.Run) {
 	r.Rule("WHO-globalcache", "package statecache keeps no cache instance (StateCache, BlockCache, TransactionCache, QueryBlockCache) in a package-level variable: caches are per block / per transaction objects")
 	r.Rule("DEP-walk", "see C06: the ancestor walk of StateCache.Get uses only the queried hash and stored links, and memoises exactly the entry it found (all fields, the tombstone flag included) under the queried hash")
 	r.Rule("DOM-ownfirst", "see C06: a layer delegates a lookup to the layer below only where its own map has no entry for the key - an own tombstone is an answer (a transaction that removed a key must not see the block's or a sibling's value for it)")
+	r.Rule("AGREE-fields", "see C14: per node type the codec's writer and reader agree on separators, field order and which field may contain the separator byte (trie nodes are copied through the cache by encode/decode: a leaf whose value contains ':' must come back whole)")
 	r.Rule("AGREE-origin", "see C14: the origin tracker's Read restores exactly what Write wrote, field by field in the same order and byte order (trie nodes are copied through the cache by encode/decode: a copy that loses the version is not the value that was handed in)")
 	r.NotDec = append(r.NotDec, "after commit the committed values are what descendant lookups return (value-level; see C06)")
 	cloneBoundary(r, "C07")
@@ -179,6 +187,7 @@ func runC07(r *engine.Run) {
 	depWalk(r)
 	agreeOrigin(r)
 	domOwnFirst(r)
+	agreeFields(r)
 }
 
 // cloneBoundary checks every sink in package statecache.
